@@ -136,6 +136,28 @@ def selected_py(opts, disk, rel, missing_before):
     return True
 
 
+def has_bad_block(ent, st):
+    return any(pos < len(st['info']) and st['info'][pos] and st['info'][pos]['bad'] for _, pos, _ in ent['blocks'])
+
+
+def selected_full(opts, dn, rel, missing, kind, ent, st):
+    """state_filter: -d / -f / -m as selected_py; -e / -b (filter_correctness) keep only FILES owning a block whose info word
+    is marked bad; links and directories are not filtered by -e / -b"""
+    rest = [x for x in opts if x not in ('-e', '-b')]
+    if ('-e' in opts or '-b' in opts) and kind == 'file':
+        return bool(st) and has_bad_block(ent, st) and selected_py(rest, dn, rel, missing)
+    return selected_py(rest, dn, rel, missing)
+
+
+def unsynced_before(o, a, dn, rel, ent):
+    """check.c:1119-1127 FILE_IS_UNSYNCED, judged on the before-snapshot: the file is missing (fix creates it empty) or its
+    size / mtime differ from the record"""
+    b4 = o.before.get(os.path.join(a.root, dn, rel))
+    if b4 is None or b4[0] != 'f':
+        return True
+    return len(b4[1]) != ent['size'] or b4[2] // 10**9 != ent['sec'] or (b4[2] % 10**9) != ent['nsec']
+
+
 def recorded_objects(st, arr):
     """(disk idx, rel) -> kind for everything recorded in the content state"""
     rec = {}
@@ -238,8 +260,13 @@ def judge(ctx, a, paths, o, cond, st_before, replay):
                     bad('fix_unrecorded', '%s on %s:%s, which is not recorded in the content file' % (r['call'], dn, rel))
                     continue
                 missing_before = os.path.join(a.root, dn, base) not in o.before
-                if '-e' not in opts and '-b' not in opts and not selected_py(opts, dn, base, missing_before):
+                transient = kind in ('create', 'unlink') and os.path.join(a.root, dn, base) not in o.after and missing_before
+                if not selected_full(opts, dn, base, missing_before, ent[0], ent[1], st_before):
                     bad('fix_unselected', '%s on %s:%s, which the filters do not select' % (r['call'], dn, rel))
+                    continue
+                if ('-e' in opts or '-b' in opts) and ent[0] == 'file' and not transient and unsynced_before(o, a, dn, base, ent[1]):
+                    bad('fix_unsynced', '%s (%s) on %s:%s under %s although the file was modified or removed after the last sync (fixes apply only to files not modified since)'
+                        % (r['call'], kind, dn, rel, '-e' if '-e' in opts else '-b'))
                     continue
                 if (dn, base) not in reported and not (kind in ('create', 'unlink') and os.path.join(a.root, dn, base) not in o.after
                                                       and os.path.join(a.root, dn, base) not in o.before):
@@ -295,8 +322,11 @@ def judge(ctx, a, paths, o, cond, st_before, replay):
                     bad('snap_fix_unrecorded', '%s:%s %s, not recorded in the content file' % (dn, rel, what))
                     continue
                 missing_before = os.path.join(a.root, dn, base) not in o.before
-                if '-e' not in opts and '-b' not in opts and not selected_py(opts, dn, base, missing_before):
+                if not selected_full(opts, dn, base, missing_before, ent[0], ent[1], st_before):
                     bad('snap_fix_unselected', '%s:%s %s, not selected by the filters' % (dn, rel, what))
+                elif ('-e' in opts or '-b' in opts) and ent[0] == 'file' and unsynced_before(o, a, dn, base, ent[1]):
+                    bad('snap_fix_unsynced', '%s:%s %s under %s although the file was modified or removed after the last sync (fixes apply only to files not modified since)'
+                        % (dn, rel, what, '-e' if '-e' in opts else '-b'))
                 elif (dn, base) not in reported:
                     bad('snap_fix_unreported', '%s:%s %s without any fixed/recovered/unrecoverable report' % (dn, rel, what))
                 continue
@@ -363,14 +393,14 @@ def extend_summary(ctx, a, paths, cmd, opts, d, cond, o_before_snapshot, faulty)
             dn = a.disks[di]
             p = a.path(dn, rel)
             missing = not os.path.lexists(p)
-            if '-e' in opts or '-b' in opts:
-                # filter_correctness: files with a block whose info word is marked bad; links and dirs are not filtered by -e
-                if kind == 'file':
-                    sel = any(pos < len(st['info']) and st['info'][pos] and st['info'][pos]['bad'] for _, pos, _ in ent['blocks'])
-                else:
-                    sel = selected_py([x for x in opts if x not in ('-e', '-b')], dn, rel, missing)
-            else:
-                sel = selected_py(opts, dn, rel, missing)
+            sel = selected_full(opts, dn, rel, missing, kind, ent, st)
+            # a block range limits the files that are examined (empty files, links and directories are always examined)
+            if sel and kind == 'file' and ent['blocks'] and ('-S' in opts or '-B' in opts):
+                s0 = int(opts[opts.index('-S') + 1]) if '-S' in opts else 0
+                cnt = int(opts[opts.index('-B') + 1]) if '-B' in opts else 0
+                hi = s0 + cnt if cnt else 10 ** 9
+                sel = any(s0 <= pos < hi for _, pos, _ in ent['blocks'])
+            syncedonly = '-e' in opts or '-b' in opts
             state = 'good'
             k = 'file'
             larger = False
@@ -383,7 +413,10 @@ def extend_summary(ctx, a, paths, cmd, opts, d, cond, o_before_snapshot, faulty)
                     data = open(p, 'rb').read()
                     v = a.find_version(dn, ent)
                     larger = s.st_size > ent['size']
-                    if k == 'empty':
+                    unsynced = s.st_size != ent['size'] or s.st_mtime_ns // 10**9 != ent['sec'] or s.st_mtime_ns % 10**9 != ent['nsec']
+                    if syncedonly and unsynced:
+                        state = 'good'; larger = False          # check.c:1346-1349: left alone
+                    elif k == 'empty':
                         state = 'good' if s.st_size == 0 else 'rec'
                     elif v is None or data[:ent['size']] != v or s.st_size < ent['size']:
                         state = 'rec'
@@ -551,6 +584,88 @@ def scenario_mutating(ctx, seed, cond, shape, cmd, opts, fail=None, then=None):
         shutil.rmtree(a.root, ignore_errors=True)
 
 
+def silent_corrupt(a, d, n, off=10):
+    p = a.path(d, n)
+    st = os.stat(p)
+    with open(p, 'r+b') as f:
+        f.seek(off)
+        f.write(b'XXXX')
+    os.utime(p, ns=(st.st_atime_ns, st.st_mtime_ns))
+
+
+FIX_CORNERS = ['range_midfile', 'range_midfile_S', 'range_nothing', 'e_user_edit_after_missing', 'b_user_edit_after_missing',
+               'e_unrecoverable_user_edit', 'e_deleted_after_scrub', 'b_deleted_after_scrub', 'e_unrecoverable_deleted',
+               'unrecoverable_plain', 'unrecoverable_filtered', 'bail_after_create', 'e_plain_bad_synced', 'm_range']
+
+
+def scenario_fix_corner(ctx, seed, variant, np_=1):
+    """fix with block ranges ending inside a file, fix -e / -b after a scrub that marked blocks bad, with a missing file EARLIER on
+    the same disk than an intact or user-edited file, files edited or deleted after the scrub, stripes with more damage than
+    parity, an early bail: whatever happens, every name that appears, disappears or changes must be reported and selected"""
+    rng = random.Random(seed)
+    a = Array(ctx.binary, nd=2, np_=np_, ncontent=2, shim=ctx.shim)
+    paths = L.Paths(a)
+    replay = {'seed': seed, 'scenario': 'fix_corner', 'variant': variant, 'np': np_}
+    k = [0]
+
+    def put(d, n, size):
+        k[0] += 1
+        a.write(d, n, rng.randbytes(size), mtime_ns=(T0 + 10 * k[0]) * 10**9 + 1234 + k[0])
+    try:
+        # alphabetical scan order = parity positions in this order on each disk
+        put('d1', 'a_first', 1024); put('d1', 'b_keep', 3072); put('d1', 'c_more', 2048); put('d1', 'sub/d_deep', 1500)
+        put('d2', 'x', 4096); put('d2', 'y_user', 1024); put('d2', 'z', 2048)
+        if a.run('sync').rc != 0:
+            raise RuntimeError('initial sync failed')
+        fail = None
+        scrub = False
+        if variant == 'range_midfile':          # a_first lost; the range ends inside b_keep
+            os.unlink(a.path('d1', 'a_first')); opts = ['-S', '0', '-B', '2']
+        elif variant == 'range_midfile_S':
+            os.unlink(a.path('d1', 'a_first')); silent_corrupt(a, 'd1', 'c_more'); opts = ['-S', '0', '-B', '5']
+        elif variant == 'range_nothing':
+            os.unlink(a.path('d1', 'a_first')); opts = ['-S', '2', '-B', '2']
+        elif variant == 'm_range':
+            os.unlink(a.path('d1', 'a_first')); os.unlink(a.path('d1', 'c_more')); opts = ['-m', '-B', '3']
+        elif variant in ('e_user_edit_after_missing', 'b_user_edit_after_missing'):
+            silent_corrupt(a, 'd1', 'a_first'); silent_corrupt(a, 'd1', 'b_keep'); scrub = True
+        elif variant == 'e_unrecoverable_user_edit':
+            silent_corrupt(a, 'd1', 'a_first'); silent_corrupt(a, 'd2', 'x'); scrub = True
+        elif variant in ('e_deleted_after_scrub', 'b_deleted_after_scrub'):
+            silent_corrupt(a, 'd1', 'b_keep', off=1030); silent_corrupt(a, 'd2', 'z'); scrub = True
+        elif variant == 'e_unrecoverable_deleted':
+            silent_corrupt(a, 'd1', 'a_first'); silent_corrupt(a, 'd2', 'x'); scrub = True
+        elif variant == 'e_plain_bad_synced':
+            silent_corrupt(a, 'd1', 'c_more'); silent_corrupt(a, 'd2', 'y_user'); scrub = True
+        elif variant == 'unrecoverable_plain':   # more damage than parity in the first stripes
+            os.unlink(a.path('d1', 'a_first')); os.unlink(a.path('d2', 'x')); silent_corrupt(a, 'd1', 'c_more'); opts = []
+        elif variant == 'unrecoverable_filtered':
+            os.unlink(a.path('d1', 'a_first')); os.unlink(a.path('d2', 'x')); opts = ['-d', 'd1']
+        elif variant == 'bail_after_create':     # a write error on a later file after an earlier one was re-created
+            os.unlink(a.path('d1', 'a_first')); silent_corrupt(a, 'd1', 'c_more'); opts = []; fail = 'pwrite:/d1/c_more:1:5'
+        else:
+            raise KeyError(variant)
+        if scrub:
+            r = a.run('scrub', '-p', 'full')
+            st = a.content()
+            if not any(i and i['bad'] for i in st['info']):
+                raise RuntimeError('scrub marked nothing bad (%s)' % variant)
+            opts = ['-b'] if variant.startswith('b_') else ['-e']
+            time.sleep(0.01)
+            if variant in ('e_user_edit_after_missing', 'b_user_edit_after_missing'):
+                os.unlink(a.path('d1', 'a_first'))                               # the missing file comes FIRST on the disk
+                a.write('d1', 'b_keep', b'rewritten by the user after the last sync\n')   # then a user-edited file with a bad block
+            elif variant == 'e_unrecoverable_user_edit':
+                a.write('d2', 'x', rng.randbytes(4096))                          # same stripes as a_first: two failures, one parity
+            elif variant in ('e_deleted_after_scrub', 'b_deleted_after_scrub'):
+                os.unlink(a.path('d1', 'b_keep'))                                # deleted after the scrub that marked its block bad
+            elif variant == 'e_unrecoverable_deleted':
+                os.unlink(a.path('d2', 'x'))
+        one_run(ctx, a, paths, 'fix', opts, 'fix_corner:' + variant, replay, fail=fail)
+    finally:
+        shutil.rmtree(a.root, ignore_errors=True)
+
+
 def scenario_corpus(ctx, path):
     """regression cases of corpus/C12/*.json (run on every check, first)"""
     c = json.load(open(path))
@@ -644,6 +759,9 @@ def main(tier, replay=None):
                     then = [('fix', ['-e'])] if cond in ('damaged', 'parity_damaged') else None
                 jobs.append((scenario_mutating, (rng.getrandbits(30), cond, shp, cmd, list(opts), None, then)))
             k += 1
+    for i, v in enumerate(FIX_CORNERS):
+        for np_ in ([1] if not thorough else [1, 2]):
+            jobs.append((scenario_fix_corner, (rng.getrandbits(30), v, np_)))
     # injected read errors: the documented sets hold on runs that end in errors too
     faults = []
     fcmds = [('check', []), ('scrub', ['-p', 'full']), ('sync', []), ('fix', []), ('fix', ['-m']), ('sync', ['-h']), ('check', ['-a'])]
